@@ -1698,3 +1698,19 @@ func (fr *Frame) markEscaped(in ssa.Instruction) {
 func (fr *Frame) doneKey(l *loop) string {
 	return fmt.Sprintf("X:loop%d@%d", l.ordinal, fr.frameID)
 }
+
+
+// currentRangeIx: the index cell of the innermost range-over-index loop that contains the block
+// being executed (so that sinks inside a loop can say $i).
+func (fr *Frame) currentRangeIx() string {
+	best, bestSize := "", -1
+	for l, lr := range fr.loopRuns {
+		if lr == nil || lr.rangeIx == "" || fr.curBlock == nil || !l.body[fr.curBlock] {
+			continue
+		}
+		if bestSize == -1 || len(l.body) < bestSize {
+			best, bestSize = lr.rangeIx, len(l.body)
+		}
+	}
+	return best
+}
